@@ -1057,6 +1057,42 @@ func genWitness(r *vh.Rng, w *world, class string) {
 		w.objs = append(w.objs, master, simpleIngress("b", "m", "x.example.com", []string{"/a", "/b"}, "svc", ann))
 		w.res = append(w.res, Res{Kind: "master", NS: "a", Name: "web", Hosts: []string{"x.example.com"}},
 			Res{Kind: "minion", NS: "b", Name: "m", Hosts: []string{"x.example.com"}, Paths: []string{"/a", "/b"}, Ann: ann})
+	case "w-jwks-zone": // F72: proxy_cache_path keys_zone=jwks_uri_<VS name> has no namespace in it
+		w.flags.Plus = true
+		for _, ns := range []string{"a", "b"} {
+			pol := &conf_v1.Policy{ObjectMeta: meta_v1.ObjectMeta{Name: "jwks", Namespace: ns},
+				Spec: conf_v1.PolicySpec{JWTAuth: &conf_v1.JWTAuth{Realm: "api", JwksURI: "https://idp.example.com/keys", KeyCache: "1h"}}}
+			w.policies = append(w.policies, pol)
+			forceReady(w, ns, "svc")
+			w.objs = append(w.objs, &conf_v1.VirtualServer{ObjectMeta: meta_v1.ObjectMeta{Name: "web", Namespace: ns},
+				Spec: conf_v1.VirtualServerSpec{Host: ns + ".example.com", IngressClass: "nginx", Policies: []conf_v1.PolicyReference{{Name: "jwks"}},
+					Upstreams: []conf_v1.Upstream{{Name: "u", Service: "svc", Port: 80}},
+					Routes:    []conf_v1.Route{{Path: "/", Action: &conf_v1.Action{Pass: "u"}}}}})
+			w.res = append(w.res, Res{Kind: "vs", NS: ns, Name: "web", Hosts: []string{ns + ".example.com"}, Paths: []string{"/"}, Policies: []string{"/jwks"}, Note: "jwksURI"})
+		}
+	case "w-grpc-hc-noport", "w-cookie-expires", "w-lb-method-space": // F70, F71, F73
+		w.flags.Plus, w.flags.HTTP2 = true, true
+		forceReady(w, "a", "svc")
+		w.secrets = append(w.secrets, &api_v1.Secret{ObjectMeta: meta_v1.ObjectMeta{Name: "tls-w", Namespace: "a"}, Type: api_v1.SecretTypeTLS,
+			Data: map[string][]byte{"tls.crt": validCert, "tls.key": validKey}})
+		u := conf_v1.Upstream{Name: "u", Service: "svc", Port: 80}
+		note := ""
+		switch class {
+		case "w-grpc-hc-noport":
+			u.Type = "grpc"
+			u.HealthCheck = &conf_v1.HealthCheck{Enable: true, Interval: "5s", Jitter: "1s", Fails: 1, Passes: 1}
+			note = "grpc health check without port"
+		case "w-cookie-expires":
+			u.SessionCookie = &conf_v1.SessionCookie{Enable: true, Name: "srv_id", Expires: "1h 30m"}
+			note = "sessionCookie.expires=1h 30m"
+		case "w-lb-method-space":
+			u.LBMethod = "round_robin "
+			note = "lb-method with trailing blank"
+		}
+		w.objs = append(w.objs, &conf_v1.VirtualServer{ObjectMeta: meta_v1.ObjectMeta{Name: "web", Namespace: "a"},
+			Spec: conf_v1.VirtualServerSpec{Host: "x.example.com", IngressClass: "nginx", TLS: &conf_v1.TLS{Secret: "tls-w"},
+				Upstreams: []conf_v1.Upstream{u}, Routes: []conf_v1.Route{{Path: "/", Action: &conf_v1.Action{Pass: "u"}}}}})
+		w.res = append(w.res, Res{Kind: "vs", NS: "a", Name: "web", Hosts: []string{"x.example.com"}, Paths: []string{"/"}, Upstreams: []string{"u"}, Note: note})
 	case "w-rewrite-backslash": // F27
 		ann := map[string]string{"nginx.org/rewrites": "serviceName=svc rewrite=/x\\"}
 		w.objs = append(w.objs, simpleIngress("a", "web", "x.example.com", []string{"/"}, "svc", ann))
@@ -1240,7 +1276,8 @@ func firstLine(s string) string {
 }
 
 var witnessClasses = []string{"w-ingress-upstream-name", "w-ingress-path-brace", "w-ts-maxconns", "w-vsr-twice", "w-variable-namer",
-	"w-rewrite-backslash", "w-sticky-brace", "w-ts-hash-key", "w-limit-req-key", "w-minion-login-location", "w-minion-login-per-path"}
+	"w-rewrite-backslash", "w-sticky-brace", "w-ts-hash-key", "w-limit-req-key", "w-minion-login-location", "w-minion-login-per-path",
+	"w-jwks-zone", "w-grpc-hc-noport", "w-cookie-expires", "w-lb-method-space"}
 
 // ---------------------------------------------------------------- identifier schemes (model correspondence)
 
